@@ -61,7 +61,9 @@ func c06Oracle(c ev.Case) Res {
 			return fail("mode %s: impl has %d tokens, reference %d; first extra impl token %s", modeName(m), len(toks), i, showTok(toks[i]))
 		}
 		rs := lx.Stats()
-		if rs.DDX != st.DDX || rs.Hash != st.Hash || rs.Tokens != st.Tokens {
+		// statistics: only what the decision logic can observe (token count exactly; whether a
+		// '#' or a '--x' comment was seen) - not how an implementation happens to count
+		if (rs.DDX != 0) != (st.DDX != 0) || (rs.Hash != 0) != (st.Hash != 0) || rs.Tokens != st.Tokens {
 			return fail("mode %s: tokenizer statistics impl=%+v ref=%+v", modeName(m), st, rs)
 		}
 		ft, fp, bl, vd, fst := lib.VFingerprint(in, m)
@@ -69,7 +71,7 @@ func c06Oracle(c ev.Case) Res {
 		if fp != r.FP || bl != r.Blacklist || vd != r.Verdict {
 			return fail("mode %s: fingerprint/blacklist/verdict impl=%q/%v/%v ref=%q/%v/%v", modeName(m), fp, bl, vd, r.FP, r.Blacklist, r.Verdict)
 		}
-		if fst.Folds != r.Stats.Folds || fst.Tokens != r.Stats.Tokens || fst.DDX != r.Stats.DDX || fst.Hash != r.Stats.Hash {
+		if fst.Tokens != r.Stats.Tokens || (fst.DDX != 0) != (r.Stats.DDX != 0) || (fst.Hash != 0) != (r.Stats.Hash != 0) {
 			return fail("mode %s: fold statistics impl=%+v ref=%+v", modeName(m), fst, r.Stats)
 		}
 		if fp != "X" {
@@ -82,7 +84,7 @@ func c06Oracle(c ev.Case) Res {
 				}
 			}
 		}
-		if len(toks) >= 2 && (interesting || r.Stats.Folds > 0) {
+		if len(toks) >= 2 && (interesting || r.Stats.Folds > 0) { // fold count of the reference, for classification only
 			res.NT = true
 		}
 		if m == fNone|fANSI {
